@@ -14,9 +14,15 @@ from . import common as C
 
 def eval_bools(prop, name, header, checks, timeout=900, jobs=5, nshards=None):
     d = C.run_dir(prop)
+    pid = os.getpid()           # per-process scratch names: concurrent runs of the same check do not collide
+    import time
     for f in os.listdir(d):
-        if f.startswith("fcases_%s_" % name):
-            os.remove(os.path.join(d, f))
+        fp = os.path.join(d, f)
+        try:
+            if f.startswith(("fcases_", ".fcases_")) and (("_p%d_" % pid) in f or time.time() - os.path.getmtime(fp) > 3600):
+                os.remove(fp)
+        except OSError:
+            pass
     if not checks:
         return []
     nshards = nshards or max(1, min(len(checks), jobs))
@@ -31,7 +37,7 @@ def eval_bools(prop, name, header, checks, timeout=900, jobs=5, nshards=None):
     for k, b in enumerate(bins):
         if not b:
             continue
-        path = os.path.join(d, "fcases_%s_%d.v" % (name, k))
+        path = os.path.join(d, "fcases_%s_p%d_%d.v" % (name, pid, k))
         with open(path, "w") as f:
             f.write(header + "\n")
             for i in sorted(b):
